@@ -344,10 +344,10 @@ func execute(h *run.H, tr *hist.Trace, draw func(w *hist.World) ([]hist.Step, []
 		st.blocks++
 		if d := sim.CompareBlockRes(ref, res); d != "" {
 			class := "other"
-			if staleGov {
-				class = "stale-gov-check-state-at-begin"
-			} else if finalizeMidBlock && strings.Contains(d, "minimal fee") {
+			if finalizeMidBlock && strings.Contains(d, "minimal fee") {
 				class = "checktx-finalize-sets-fee-option"
+			} else if staleGov {
+				class = "stale-gov-check-state-at-begin"
 			}
 			diff := sim.DiffDumps(plain.DumpMap(), checked.DumpMap())
 			if len(diff) > 8 {
